@@ -3,6 +3,7 @@ package rules
 import (
 	"fmt"
 	"go/token"
+	"go/types"
 	"strings"
 
 	"aghverif/core"
@@ -159,8 +160,7 @@ func c17Guarded(fn *ssa.Function, v ssa.Value, at ssa.Instruction) (bool, string
 		if len(args) != 2 || args[1] != v {
 			return false, false
 		}
-		fr, _, ok := core.LoadedField(args[0])
-		if !ok || fr.Type != "filtering.DNSFilter" || fr.Field != "safeFSPatterns" {
+		if !c17SafeChain(args[0]) {
 			return false, false
 		}
 		return true, true
@@ -222,7 +222,7 @@ func c17Entry(c *Ctx) {
 				if call, _, ok := core.CallResult(at.Base); ok && core.CalleeKey(call.Common()) == "filtering.pathMatchesAny" {
 					args := call.Common().Args
 					if len(args) == 2 && c17Cleaned(args[1], 0) {
-						if fr, _, ok := core.LoadedField(args[0]); ok && fr.Field == "safeFSPatterns" {
+						if c17SafeChain(args[0]) {
 							return true, true
 						}
 					}
@@ -239,7 +239,7 @@ func c17Entry(c *Ctx) {
 				if call, _, ok := core.CallResult(at.Base); ok && core.CalleeKey(call.Common()) == "filtering.pathMatchesAny" {
 					args := call.Common().Args
 					if len(args) == 2 && c17Cleaned(args[1], 0) {
-						if fr, _, ok := core.LoadedField(args[0]); ok && fr.Field == "safeFSPatterns" {
+						if c17SafeChain(args[0]) {
 							return true, true
 						}
 					}
@@ -408,9 +408,52 @@ func c17Bans(c *Ctx) {
 	r.Check(ok, "C17-D3", "download-uses-configured-client", p.FnPos(rf), "downloads go through Config.HTTPClient", "readerFromURL no longer uses the configured HTTP client only")
 }
 
+// c17SafeChain: v is (a load of, or an address inside) the safe-pattern list of the filter: a chain of field
+// selections that passes through DNSFilter.safeFSPatterns.
+func c17SafeChain(v ssa.Value) bool {
+	for i := 0; i < 6; i++ {
+		v = core.ResolveCellLoad(v)
+		switch x := v.(type) {
+		case *ssa.UnOp:
+			if x.Op != token.MUL {
+				return false
+			}
+			v = x.X
+		case *ssa.FieldAddr:
+			if fr, ok := core.FieldOfAddr(x); ok && fr.Type == "filtering.DNSFilter" && fr.Field == "safeFSPatterns" {
+				return true
+			}
+			v = x.X
+		case *ssa.Field:
+			if fr, ok := core.FieldOfAddr(x); ok && fr.Type == "filtering.DNSFilter" && fr.Field == "safeFSPatterns" {
+				return true
+			}
+			v = x.X
+		default:
+			return false
+		}
+	}
+	return false
+}
+
 func c17Patterns(c *Ctx) {
 	p, r := c.P, c.R
 	n := 0
+	// when the list is wrapped in a type of its own, that type's fields are part of the list
+	wrapper := ""
+	if pk := p.Pkg("filtering"); pk != nil {
+		if o := pk.Types.Scope().Lookup("DNSFilter"); o != nil {
+			if st, ok := o.Type().Underlying().(*types.Struct); ok {
+				for i := 0; i < st.NumFields(); i++ {
+					if st.Field(i).Name() == "safeFSPatterns" {
+						if _, isStruct := st.Field(i).Type().Underlying().(*types.Struct); isStruct {
+							wrapper = core.NamedKey(st.Field(i).Type())
+						}
+					}
+				}
+			}
+		}
+	}
 	for _, fn := range p.ModFnsIn("filtering") {
 		for _, b := range fn.Blocks {
 			for _, in := range b.Instrs {
@@ -418,8 +461,7 @@ func c17Patterns(c *Ctx) {
 				if !ok {
 					continue
 				}
-				fr, ok := core.FieldOfAddr(st.Addr)
-				if !ok || fr.Type != "filtering.DNSFilter" || fr.Field != "safeFSPatterns" {
+				if !c17SafeChain(st.Addr) {
 					continue
 				}
 				n++
@@ -428,7 +470,7 @@ func c17Patterns(c *Ctx) {
 				var bad []string
 				for _, o := range os {
 					switch {
-					case o.Kind == "field" && (o.Key == "filtering.Config.SafeFSPatterns" || o.Key == "filtering.DNSFilter.safeFSPatterns"):
+					case o.Kind == "field" && (o.Key == "filtering.Config.SafeFSPatterns" || o.Key == "filtering.DNSFilter.safeFSPatterns" || (wrapper != "" && strings.HasPrefix(o.Key, wrapper+"."))):
 					case o.Kind == "const" && o.Key == "nil":
 					case o.Kind == "param" && strings.Contains(o.Key, "filtering.New#"):
 					default:
